@@ -23,6 +23,8 @@ def judge_stats(r):
         problems.append("nursery not empty after a full collection")
     if st["next_gc"] != 2 * st["bytes_allocated"]:
         problems.append("next_gc=%d is not twice bytes_allocated=%d" % (st["next_gc"], st["bytes_allocated"]))
+    if st.get("string_objects") is not None and st["string_objects"] != st["intern_len"]:
+        problems.append("the allocator owns %d string objects but the intern table has %d entries after a full collection" % (st["string_objects"], st["intern_len"]))
     bs = r.get("block_sizes")
     if bs:
         # independent of the allocator's own size(): what the global allocator handed out for each owned block
